@@ -518,6 +518,42 @@ func checkLockContentParsable(c *Ctx) {
 // cache is then rebuilt from git anyway (document count mismatch), so nothing is lost by starting over.
 func checkIndexReopen(c *Ctx) {
 	w := c.W
+	// the reference mutations are unconditional: every normal exit of UpdateRef / CopyRef / RemoveRef is the outcome of the storer call
+	// (refs may live in packed-refs only: a look at the loose file says nothing)
+	for _, m := range []struct{ name, mut string }{{"UpdateRef", "SetReference"}, {"CopyRef", "SetReference"}, {"RemoveRef", "RemoveReference"}} {
+		rf := w.Method("repository", "GoGitRepo", m.name)
+		if rf == nil {
+			continue
+		}
+		var mut *ssa.Call
+		for _, cl := range Calls(rf) {
+			if strings.HasSuffix(cl.Name, "."+m.mut) {
+				mut, _ = cl.Instr.(*ssa.Call)
+			}
+		}
+		if mut == nil {
+			continue
+		}
+		bad := ""
+		for _, r := range Returns(rf) {
+			if returnKind(r) == RetError {
+				continue
+			}
+			c.Sites++
+			okR := dominatedBySuccess(mut, r)
+			if len(r.Results) == 1 {
+				for _, o := range origins(ReturnResult(r, 0)) {
+					if o.Val == ssa.Value(mut) {
+						okR = true
+					}
+				}
+			}
+			if !okR {
+				bad = "the return at " + w.InstrPos(r) + " reports success without the reference having been handed to the storer"
+			}
+		}
+		c.Check(bad == "", "R6.8", "GoGitRepo."+m.name+":always-through-the-storer", w.FnPos(rf), "success only as the outcome of "+m.mut, bad+": a reference that exists only in packed-refs (after git gc / pack-refs) is reported removed and stays — the entity survives its removal")
+	}
 	c.Doc("R6.9", "repository.openBleveIndex fails only when creating a fresh index fails: every error return is dominated by the makeIndex call (any failure of bleve.Open leads to re-creation)")
 	fn := w.Func("repository", "openBleveIndex")
 	if fn == nil {
